@@ -106,7 +106,7 @@ def opt_generate(name, *, timeout=600, workers=2, simulate=None, depth=None, see
     return out, run
 
 
-def _replay(overlay, test, what, cases, marker, *, race=False, timeout=900, repo=None):
+def _run_go(overlay, test, cases, *, race, timeout, repo):
     d = vlib.mkscratch("verif-cb-")
     cpath, out = os.path.join(d, "cases.ndjson"), os.path.join(d, "obs.ndjson")
     with open(cpath, "w") as fh:
@@ -114,16 +114,52 @@ def _replay(overlay, test, what, cases, marker, *, race=False, timeout=900, repo
             fh.write(json.dumps(c, separators=(",", ":")) + "\n")
     code, output, wall = vlib.go_test("compose", overlay, "^%s$" % test, race=race, timeout=timeout, repo=repo, args=["-test.v"],
                                       env={"VERIF_CASES": cpath, "VERIF_OUT": out})
-    if race and code != 0 and "WARNING: DATA RACE" in output and os.path.exists(out):
-        return vlib.read_lines(out), wall, output
-    vlib.go_must_run(code, output, what)
-    if "%s cases=%d" % (marker, len(cases)) not in output:
-        raise Inconclusive("%s: harness did not report all cases\n%s" % (what, output[-3000:]))
-    return vlib.read_lines(out), wall, output
+    lines = vlib.read_lines(out) if os.path.exists(out) else []
+    return code, output, wall, lines
+
+
+def _replay(overlay, test, what, cases, marker, *, race=False, timeout=900, repo=None, crash_ok=False):
+    """Run the harness over the cases.  With crash_ok (sequential harness that flushes after every case): a panic raised inside the
+    LIBRARY (not in a harness frame) while a case runs ends that case with a `crash` line (which the rule rejects) and the
+    remaining cases are run in a fresh process."""
+    remaining, all_lines, wall_total, outputs, crashes = list(cases), [], 0.0, [], 0
+    while True:
+        code, output, wall, lines = _run_go(overlay, test, remaining, race=race, timeout=timeout, repo=repo)
+        wall_total += wall
+        outputs.append(output)
+        if "%s cases=%d" % (marker, len(remaining)) in output and (code == 0 or (race and "DATA RACE" in output)):
+            all_lines += lines
+            break
+        starts = [i for i, ln in enumerate(lines) if ln.startswith('{"ev":"case"')]
+        if crash_ok and code != 0 and "panic:" in output and starts and "[build failed]" not in output:
+            # the frame that raised the panic: first function line of the panicking goroutine that is not runtime / panic
+            top = ""
+            for ln in output.split("panic:", 1)[1].split("[running]:", 1)[-1].splitlines():
+                ln = ln.strip()
+                if not ln or ln.startswith("/") or ln.startswith("panic(") or ln.startswith("runtime.") or ln.startswith("goroutine "):
+                    continue
+                top = ln
+                break
+            if "compose.vcb" in top or "compose.vop" in top or top == "":
+                raise Inconclusive("%s: the harness itself panicked\n%s" % (what, output[-4000:]))
+            last = starts[-1]
+            msg = output.split("panic:", 1)[1].strip().splitlines()[0][:200]
+            all_lines += lines[:last] + [ln for ln in lines[last:] if not ln.startswith('{"ev":"done"')]
+            all_lines += [json.dumps({"ev": "crash", "msg": "panic in library goroutine: " + msg}), '{"ev":"done"}']
+            remaining = remaining[len(starts):]
+            crashes += 1
+            if not remaining:
+                break
+            if crashes >= 8:
+                log("  note: %d crashes; %d cases not run" % (crashes, len(remaining)))
+                break
+            continue
+        vlib.go_must_run(code if code != 0 else 1, output, what)
+    return all_lines, wall_total, "\n".join(outputs)
 
 
 def cb_replay(cases, **kw):
-    return _replay(CB_OVERLAY, "TestVerifCb", "C10 replay", cases, "VERIF-CB", **kw)
+    return _replay(CB_OVERLAY, "TestVerifCb", "C10 replay", cases, "VERIF-CB", crash_ok=True, **kw)
 
 
 def opt_replay(cases, **kw):
